@@ -64,6 +64,18 @@ def patterns(tier='quick'):
         pats.append(('QUAL', ('PAREN', ('OOR', (a, ('OAND', (a, obs[1]))))), ('WITHIN', 5.0)))
         pats.append(('QUAL', ('QUAL', a, ('REPEATS', 2)), ('WITHIN', 5.0)))
         pats.append(('OOR', (('QUAL', a, ('WITHIN', 5.0)), ('OAND', (('QUAL', a, ('WITHIN', 5.0)), obs[1])))))
+    # groups inside groups: a parenthetical whose content starts and ends with a nested group (or ends with a set literal), where the outer parentheses matter
+    l = simple[:5] if len(simple) >= 5 else (simple * 5)[:5]
+    inl = ('CMP', PA, 'IN', False, ('set', (('num', 1), ('num', 2))))
+    pats.append(('OBS', ('CAND', (('CPAREN', ('COR', (('CPAREN', ('CAND', (l[0], l[1]))), ('CPAREN', ('CAND', (l[2], l[3])))))), l[4]))))
+    pats.append(('OBS', ('CAND', (l[4], ('CPAREN', ('COR', (('CPAREN', ('CAND', (l[0], l[1]))), inl)))))))
+    pats.append(('OBS', ('CAND', (('CPAREN', ('COR', (('CPAREN', ('COR', (l[0], l[1]))), l[2]))), l[3]))))
+    pats.append(('QUAL', ('PAREN', ('OAND', (('PAREN', ('OOR', (obs[0], obs[1]))), ('PAREN', ('OOR', (obs[1], obs[2])))))), ('WITHIN', 5.0)))
+    pats.append(('QUAL', ('PAREN', ('OOR', (('PAREN', ('FBY', (obs[0], obs[1]))), ('PAREN', ('FBY', (obs[1], obs[2])))))), ('REPEATS', 2)))
+    pats.append(('OOR', (('PAREN', ('FBY', (obs[0], obs[1]))), ('PAREN', ('FBY', (obs[2], obs[0]))))))
+    pats.append(('FBY', (('PAREN', ('OOR', (('PAREN', ('OAND', (obs[0], obs[1]))), ('PAREN', ('OAND', (obs[1], obs[2])))))), obs[0])))
+    pats.append(('OAND', (('PAREN', ('OOR', (('PAREN', ('FBY', (obs[0], obs[1]))), obs[2]))), ('PAREN', ('OOR', (obs[1], ('PAREN', ('FBY', (obs[2], obs[0])))))))))
+    pats.append(('OBS', ('CPAREN', ('CPAREN', l[0]))))
     seen = set(); out = []
     for t in pats:
         if t not in seen: seen.add(t); out.append(t)
